@@ -27,12 +27,11 @@ pub fn validate_response_sizes(config: &Config) -> anyhow::Result<()> {
     };
 
     // Action (i32) followed by response data
-    let max_announce_response_len = size_of::<i32>()
-        + size_of::<AnnounceResponseFixedData>()
-        + config
-            .protocol
-            .max_response_peers
-            .saturating_mul(size_of::<ResponsePeer<Ipv6AddrBytes>>());
+    let max_announce_response_len = config
+        .protocol
+        .max_response_peers
+        .saturating_mul(size_of::<ResponsePeer<Ipv6AddrBytes>>())
+        .saturating_add(size_of::<i32>() + size_of::<AnnounceResponseFixedData>());
     let max_scrape_response_len = size_of::<i32>()
         + size_of::<TransactionId>()
         + (config.protocol.max_scrape_torrents as usize) * size_of::<TorrentScrapeStatistics>();
